@@ -27,7 +27,7 @@ META = {
 THEOREMS = ['Scalibr.Unpack.C06_unpack_contained_partial', 'Scalibr.Unpack.C06_resolution_stays_inside', 'Scalibr.Unpack.Contained_of_Safe',
             'Scalibr.Unpack.unpackAll_safe', 'Scalibr.Unpack.resolve_inside', 'Scalibr.Unpack.outsideUnchangedB_sound',
             'Scalibr.Unpack.linksInsideB_of_Contained', 'Scalibr.Unpack.C06_fuel_monotone', 'Scalibr.Unpack.C06_fuel_adequate_nolink',
-            'Scalibr.Unpack.C06_hypothesis_only_sufficient', 'Scalibr.Unpack.C06_unpack_contained_fails', 'Scalibr.Unpack.C06_unpack_not_contained', 'Scalibr.Unpack.C06_unpack_writes_outside']
+            'Scalibr.Unpack.C06_hypothesis_only_sufficient', 'Scalibr.Unpack.C06_unpack_contained_fails', 'Scalibr.Unpack.C06_unpack_not_contained', 'Scalibr.Unpack.C06_unpack_outside_unchanged']
 
 THEOREMS_LOAD = ['Scalibr.ImageLife.C06_load_failed_restores', 'Scalibr.ImageLife.C06_load_cleanup_restores', 'Scalibr.ImageLife.C06_load_others_untouched',
                  'Scalibr.ImageLife.loop_failed', 'Scalibr.ImageLife.loop_others']
@@ -141,6 +141,9 @@ def _judge(case, fi, fm):
             return 'the Lean and the Python evaluation of Contained disagree on the same snapshot (%s vs %s): oracle fault' % (lean, (out_ok, links_ok)), None
     if out_ok and links_ok:
         return None, None
+    if not out_ok:
+        # clause 1 holds for EVERY stream since the evaluated-parent checks (C06_unpack_outside_unchanged): no class excuses it
+        return 'something outside the target changed: ' + why, None
     if fm.get('h') == '0':
         return 'not contained: ' + why, KEY
     return 'not contained although no relative link target has a "..": ' + why, None
